@@ -200,7 +200,7 @@ def backingOf (b : Bytes) (r : Raw) : Outcome (Option (List UInt8)) :=
     if r.backingSize > 1023 then .err .invalid else
     let e := r.backingOff + r.backingSize
     if e ≥ 2^64 then .err .invalid else
-    if e ≥ 2^r.clusterBits then .err .invalid else
+    if e > 2^r.clusterBits then .err .invalid else
     if e > b.size then .err .invalid else
     let nm := (b.extract (e - r.backingSize) e).toList
     if utf8Valid nm then .ok (some nm) else .err .invalid
